@@ -84,6 +84,16 @@ theorem roundtrip (s : Schedule) (h : s.wf) : deserializeSchedule (serializeSche
   exact deserializeChars_of_filter s h _ (filter_serializeChars s)
 
 example : deserializeSchedule (serializeSchedule ex1) = some ex1 := roundtrip ex1 (by decide)
+
+/-- **the encoding is injective on well-formed schedules**: two different schedules (seed or any step)
+never print as the same string, and not even as strings that differ only in whitespace — a failure
+report identifies its schedule. Corollary of the round trip. -/
+theorem serialize_injective (s s' : Schedule) (h : s.wf) (h' : s'.wf)
+    (he : serializeSchedule s = serializeSchedule s') : s = s' := by
+  have h1 := roundtrip s h
+  rw [he, roundtrip s' h'] at h1
+  exact (Option.some.inj h1).symm
+
 example : deserializeSchedule (serializeSchedule ex0) = some ex0 := roundtrip ex0 (by decide)
 example : deserializeChars (serializeChars ex1) = some ex1 := by decide +kernel
 
